@@ -168,6 +168,16 @@ func TestC07Continuity(t *testing.T) {
 			}
 			return prev
 		}
+		// once a node's clock has reached the transition time the new group is the live one for it: whatever round it still
+		// owes (the old group may not have produced rT-1 in time, or sync lags behind) is signed with the new shares. The
+		// signature is the same group signature either way.
+		tTransition := net.timeOfRound(rT).Int64()
+		net.AltEpoch = func(nd *Node, put *PutEvent) *fx.Net {
+			if put.Clock >= tTransition && epochPos(next, nd.Addr) >= 0 {
+				return next
+			}
+			return nil
+		}
 		checkAll := func() {
 			if f := net.CheckStored(); f != nil {
 				fail(f)
@@ -221,13 +231,19 @@ func TestC07Continuity(t *testing.T) {
 		// continuity: with a threshold of the new group switched in time no round halts: everybody in the new group is at the clock
 		if inTime >= t1 {
 			ok := net.WaitHeads(newPositions(), round, 3*time.Second)
-			for k := 0; k < 6 && !ok; k++ {
-				// catch-up runs on the fake clock
+			for k := 0; k < 24 && !ok; k++ {
+				// catch-up runs on the fake clock (one round per catch-up period of 1 s, the period is 2-4 s): a chain that is alive
+				// closes any gap within a few of these steps, a halted one never does. On a busy machine the real-time waits are
+				// what limits progress, hence the generous number of steps (only taken while the heads are behind).
 				net.NextStep()
 				net.Advance(nil, time.Second)
 				net.SettleFor(30*time.Millisecond, 3*time.Second)
 				r := net.Nodes[keep[0]].ClockRound()
-				ok = net.WaitHeads(newPositions(), r, 200*time.Millisecond)
+				wait := 200 * time.Millisecond
+				if k >= 6 {
+					wait = time.Second
+				}
+				ok = net.WaitHeads(newPositions(), r, wait)
 				round = r
 			}
 			if !ok {
